@@ -4,8 +4,10 @@ import hashlib, json, os, re, subprocess, sys, time
 VERIF = os.path.dirname(os.path.dirname(os.path.abspath(__file__)))
 REPO = os.environ.get("VERIF_REPO", "/repo")
 CACHE = os.path.join(VERIF, ".cache")
-EVIDENCE_DIR = os.path.join(VERIF, "evidence")
-REPLAY_DIR = os.path.join(VERIF, "replay")
+# runs against a scratch copy (VERIF_REPO=..., used to try seeded changes) never touch the committed evidence / replay files
+_SCRATCH = REPO != "/repo"
+EVIDENCE_DIR = os.path.join(VERIF, "evidence") if not _SCRATCH else os.path.join(CACHE, "scratch-evidence")
+REPLAY_DIR = os.path.join(VERIF, "replay") if not _SCRATCH else os.path.join(CACHE, "scratch-replay")
 FINDINGS_FILE = os.path.join(VERIF, "known_findings.txt")
 
 EXIT_OK, EXIT_VIOLATION, EXIT_UNDECIDED = 0, 1, 2
